@@ -71,8 +71,11 @@ def make_token(auth, st):
     t = auth.AuthenticationToken(username=VAL['username'] if st['username'] != 'none' else None,
                                  access_token=VAL['access'] if st['access'] != 'none' else None,
                                  client_token=VAL['client'] if st['client'] != 'none' else None)
-    t.profile.id_ = VAL['pid'] if st['pid'] != 'none' else None
-    t.profile.name = VAL['pname'] if st['pname'] != 'none' else None
+    # (fields that are absent are left as the constructor made them: a new token starts without a profile of its own)
+    if st['pid'] != 'none':
+        t.profile.id_ = VAL['pid']
+    if st['pname'] != 'none':
+        t.profile.name = VAL['pname']
     return t
 
 
